@@ -25,7 +25,7 @@ RULE = ('element trees (depth<=4) built from oracle-valid child words; into EVER
 ASSUMPTIONS = ['control characters other than TAB/LF and CR are outside the domain (not XML Chars / not preserved by XML)']
 EXHAUSTIVE = False
 
-SPECIAL = ['<', '>', '&', '"', "'", ']]>', '\t', '\n', '  ', ' ', '&amp;', '&lt;', '<!--', '-->', '<?x?>', '\U0001D11E',
+SPECIAL = ['<', '>', '&', '"', "'", ']]>', '\t', '\n', '  ', ' ', '\n  ', '\n    ', 'a\n      b  \n  c', '\n\t', '&amp;', '&lt;', '<!--', '-->', '<?x?>', '\U0001D11E',
            'é', ' ', ' ', '�', '<a b="c">', '{', '}', '%s', '\\', '　']
 XML_CHARS = st.characters(min_codepoint=0x20, max_codepoint=0x10FFFF, exclude_categories=('Cs',),
                           exclude_characters='￾￿')
